@@ -32,7 +32,15 @@ def funcs : List (String × String) := [
   ("internal/msgpipeline/config.go:parseRejectDirective", "8088995939f9593b"),
   ("internal/smtpconn/smtpconn.go:C.wrapClientErr", "061f2b3d64b9f03c"),
   ("internal/target/queue/queue.go:toSMTPErr", "22651b4e75b94c9a"),
-  ("internal/target/remote/connect.go:remoteDelivery.newConn", "76385034d8cea661")
+  ("internal/target/remote/connect.go:remoteDelivery.attemptMX", "4e4fc74a865825d1"),
+  ("internal/target/remote/connect.go:remoteDelivery.connectionForDomain", "c9c06a28375d94f9"),
+  ("internal/target/remote/connect.go:remoteDelivery.lookupMX", "85d78448934faafd"),
+  ("internal/target/remote/connect.go:remoteDelivery.newConn", "76385034d8cea661"),
+  ("internal/target/remote/remote.go:moduleError", "c754ebc8262b8245"),
+  ("internal/target/remote/remote.go:multipleErrs.Fields", "cb0cc16e652a8177"),
+  ("internal/target/remote/remote.go:remoteDelivery.AddRcpt", "22f624f979db1f13"),
+  ("internal/target/smtp/smtp_downstream.go:delivery.connect", "6a0603d98b83eee2"),
+  ("internal/target/smtp/smtp_downstream.go:lmtpDelivery.BodyNonAtomic", "7c317da1d0ed03bd")
 ]
 
 end MaddyVerif.Expect.FuncSkelC16
